@@ -54,6 +54,18 @@ pub fn get_lit_str( meta: &syn::Meta ,arg: &str ) -> String {
 }
 
 
+/// the value of a `name = "Value"` argument as an identifier
+pub fn str_to_ident( meta: &syn::Meta, arg: &str, value: &str ) -> syn::Ident {
+    use syn::{ext::IdentExt,parse::Parser};
+    match syn::Ident::parse_any.parse_str(value) {
+        Ok(ident) => ident,
+        Err(_) => {
+            let msg = format!("Attribute argument '{arg}' value {value:?} is not a valid identifier.");
+            abort!(meta,msg);
+        },
+    }
+}
+
 pub fn get_lit( meta: &syn::Meta ) -> syn::Lit {
 
     let msg = "Expected a 'name = value' argument !";
